@@ -553,6 +553,18 @@ func checkC21(env *kernel.Env) {
 				if m.pk == c.name {
 					nc.notNull = true
 				}
+				if T.Bool(1, 3) {
+					// a DEFAULT in the new definition is for future inserts; it does not
+					// stand in for the NULLs already stored
+					switch nc.typ {
+					case "enum":
+						nc.def = nc.enum[T.Draw(len(nc.enum))]
+					case "varchar":
+						nc.def = "dv"
+					default:
+						nc.def = int64(T.Range(0, 9))
+					}
+				}
 				from := c.name
 				sqlText := fmt.Sprintf("ALTER TABLE %s MODIFY COLUMN %s", m.name, nc.ddl())
 				kind := "modify-column"
